@@ -12,7 +12,7 @@ EXPLANATION = (
     "unsorted program dict. R12b: the interaction kinds accepted by the constructor equal the kinds dispatched in get_outcome and the fall-through raises. R12c: an "
     "explicitly specified combination outcome is looked up before the 'best' fallback. R12d: every dispatch branch adds a weights x outcomes sum to the baseline and the "
     "zero/one-program shortcuts return baseline (+ c x delta). R12e: deltas and explicit interaction outcomes are both stored relative to the baseline. "
-    "Convexity, marginals and monotonicity of the weights are not decided."
+    "R12f: every masked division in get_outcome is masked by a test of its own denominator (dividing is skipped exactly where it would be 0/0). Convexity, marginals and monotonicity of the weights are not decided."
 )
 
 
@@ -23,6 +23,7 @@ def run(ctx):
     ctx.each(r12c, ctx, repo)
     ctx.each(r12d, ctx, repo)
     ctx.each(r12e, ctx, repo)
+    ctx.each(r12f, ctx, repo)
 
 
 def r12a(ctx, repo):
@@ -162,3 +163,17 @@ def r12e(ctx, repo):
     # the baseline is assigned before the interactions are parsed
     b = [s for s in own_nodes(init.node) if isinstance(s, ast.Assign) and ast.unparse(s.targets[0]).endswith(".baseline")]
     ctx.check(bool(b) and b[0].lineno < i[0].lineno, "R12e", init, b[0] if b else init.node, "baseline set before interactions are made relative to it", "self.baseline is read before it is assigned in Covout.__init__")
+
+
+def r12f(ctx, repo):
+    ctx.rule("R12f", "masked divisions in Covout.get_outcome: np.divide(a, b, out=..., where=W) has W a non-zero test of b itself (b != 0 / b > 0), so the division is skipped exactly where it would be 0/0 and nowhere else")
+    fi = repo.func("programs", "Covout.get_outcome")
+    n = 0
+    for c in own_nodes(fi.node):
+        if isinstance(c, ast.Call) and ast.unparse(c.func) == "np.divide" and len(c.args) >= 2 and astq.kwarg(c, "where") is not None:
+            n += 1
+            den = ast.unparse(c.args[1])
+            w = ast.unparse(astq.kwarg(c, "where"))
+            ok = w in ("%s != 0" % den, "%s > 0" % den, "%s != 0.0" % den, "%s > 0.0" % den, "0 != %s" % den, "0 < %s" % den)
+            ctx.check(ok, "R12f", fi, enclosing_stmt(c), "division by `%s` masked by `%s`" % (den, w), "`%s` divides by `%s` but is masked by `%s`, which is not a test of the denominator: where the two differ a share is left at its fill value although the denominator is non-zero, and the weights no longer have the programs' coverages as marginals" % (ast.unparse(c)[:70], den, w))
+    ctx.require(n >= 1, "R12f: masked division not found in Covout.get_outcome")
